@@ -263,7 +263,10 @@ def run_task(task):
                         def_case(res, {'ast': a, 'comments': comments})
             a = copy_ast(diearea=[(0, 0), (0, 2000), (1000, 2000), (1000, 0)])
             def_case(res, {'ast': a})
-            a = copy_ast(rows=BASE['rows'] + [{'name': 'row1', 'site': 'unit', 'x': 0, 'y': 100, 'orient': 'FS', 'nx': 1, 'ny': 7, 'sx': 0, 'sy': 50}],
+            a = copy_ast(rows=BASE['rows'] + [{'name': 'row1', 'site': 'unit', 'x': 0, 'y': 100, 'orient': 'FS', 'nx': 1, 'ny': 7, 'sx': 0, 'sy': 50},
+                                             {'name': 'row_one', 'site': 'core', 'x': 3000, 'y': 4800, 'orient': 'FS', 'nx': 1, 'ny': 1, 'sx': 380, 'sy': 0},
+                                             {'name': 'row_tap', 'site': 'tap', 'x': 0, 'y': 0, 'orient': 'N', 'nx': 1, 'ny': 1, 'sx': 0, 'sy': 270},
+                                             {'name': 'row_two', 'site': 'core', 'x': 10, 'y': 0, 'orient': 'S', 'nx': 2, 'ny': 1, 'sx': 1, 'sy': 0}],
                          tracks=BASE['tracks'] + [{'dir': 'Y', 'start': 0, 'n': 3, 'step': 20, 'layer': 'M2'}])
             def_case(res, {'ast': a})
             for sec in ('vias', 'comps', 'pins', 'spnets', 'nets'):
